@@ -181,21 +181,31 @@ EvalInit == n = 0 /\ op = Op("read_from", 0, NoLen, 0, FALSE) /\ pc = "done" /\ 
 EvalNext == UNCHANGED vars
 
 Inputs == UNION { { [n |-> m, op |-> o] : o \in Ops(m) } : m \in 0..MaxN }
-Gen == ndJsonSerialize(IOEnv.RR_INPUTS, SetToSeq(Inputs))
+\* (Gen and Verdict take a dummy argument so that TLC does not evaluate them eagerly in every run)
+Gen(go) == ndJsonSerialize(IOEnv.RR_INPUTS, SetToSeq(Inputs))
+
+\* The relation is tight: for every call it accepts exactly one byte string among all contiguous spans of the object
+\* (or none, when only the EOF signal is acceptable), and it always accepts something.
+Spans(m) == { Span(m, s, l) : s \in 0..m, l \in 0..m }
+OkIsTight(go) == \A c \in Inputs :
+               LET acc == { d \in Spans(c.n) : Ok(c.n, c.op, Bytes(d)) } IN
+                 /\ Cardinality(acc) <= 1
+                 /\ acc = {} => Ok(c.n, c.op, Eof)
+                 /\ (c.op.kind = "read_range" /\ c.op.len > 0 /\ acc # {}) => ~Ok(c.n, c.op, Eof)
 
 \* cases = [be, n, op, reqs: <<[first, last, status, body]>>, out: [kind, data]]
-Cases == ndJsonDeserialize(IOEnv.RR_CASES)
 OutOf(c) == [kind |-> c.out.kind, data |-> c.out.data]
 EnvOk(c) == \A i \in 1..Len(c.reqs) :
               LET r == c.reqs[i] s == ServeRange(c.n, [first |-> r.first, last |-> r.last]) IN
                 s.status = r.status /\ s.body = r.body
-Bad    == { i \in 1..Len(Cases) : ~Ok(Cases[i].n, Cases[i].op, OutOf(Cases[i])) }
-BadEnv == { i \in 1..Len(Cases) : ~EnvOk(Cases[i]) }
-Verdict == JsonSerialize(IOEnv.RR_VERDICT,
-             [cases |-> Len(Cases),
-              bad |-> SetToSeq({ [i |-> i, cls |-> Class(Cases[i].n, Cases[i].op, OutOf(Cases[i]))] : i \in Bad }),
-              bad_env |-> SetToSeq(BadEnv),
-              eof_ok |-> Cardinality({ i \in 1..Len(Cases) : Cases[i].out.kind = "eof" /\ i \notin Bad }),
-              nonempty_ok |-> Cardinality({ i \in 1..Len(Cases) : Cases[i].out.kind = "bytes"
-                                                                  /\ Len(Cases[i].out.data) > 0 /\ i \notin Bad })])
+CaseOk(c) == Ok(c.n, c.op, OutOf(c))
+\* (the case file is read once: cs is passed as a value)
+VerdictOf(cs) ==
+  LET bad == { i \in 1..Len(cs) : ~CaseOk(cs[i]) } IN
+    [cases |-> Len(cs),
+     bad |-> SetToSeq({ [i |-> i, cls |-> Class(cs[i].n, cs[i].op, OutOf(cs[i]))] : i \in bad }),
+     bad_env |-> SetToSeq({ i \in 1..Len(cs) : ~EnvOk(cs[i]) }),
+     eof_ok |-> Cardinality({ i \in 1..Len(cs) : cs[i].out.kind = "eof" /\ i \notin bad }),
+     nonempty_ok |-> Cardinality({ i \in 1..Len(cs) : cs[i].out.kind = "bytes" /\ Len(cs[i].out.data) > 0 /\ i \notin bad })]
+Verdict(go) == JsonSerialize(IOEnv.RR_VERDICT, VerdictOf(ndJsonDeserialize(IOEnv.RR_CASES)))
 =============================================================================
